@@ -160,12 +160,16 @@ pub fn derive(input: &Input) -> TokenStream {
             pub fn push(&mut self, value: #name) {
                 // We need to use ptr read/write instead of moving out of the
                 // fields in case the value struct implements Drop.
+                //
+                // If value implements Drop, we don't want to run it here, only
+                // when the vec itself will be dropped. `ManuallyDrop` instead
+                // of a trailing `mem::forget` also covers a panic in one of
+                // the calls below: the fields already copied into the vectors
+                // must not be dropped a second time with `value`.
+                let value = ::std::mem::ManuallyDrop::new(value);
                 unsafe {
                     #(self.#fields_names.push(::std::ptr::read(&value.#fields_names));)*
                 }
-                // if value implements Drop, we don't want to run it here, only
-                // when the vec itself will be dropped.
-                ::std::mem::forget(value);
             }
 
             /// Similar to [`
@@ -208,13 +212,12 @@ pub fn derive(input: &Input) -> TokenStream {
                 }
 
                 // similar to push, we can not use move and have to rely on ptr
-                // read/write
+                // read/write, and must not drop `element` (even if one of the
+                // calls below panics)
+                let element = ::std::mem::ManuallyDrop::new(element);
                 unsafe {
                     #(self.#fields_names.insert(index, ::std::ptr::read(&element.#fields_names));)*
                 }
-                // if value implements Drop, we don't want to run it here, only
-                // when the vec itself will be dropped.
-                ::std::mem::forget(element);
             }
 
             /// Similar to [`std::mem::replace()`](https://doc.rust-lang.org/std/mem/fn.replace.html).
@@ -225,14 +228,13 @@ pub fn derive(input: &Input) -> TokenStream {
                 }
 
                 // similar to push, we can not use move and have to rely on ptr
-                // read/write
+                // read/write, and must not drop `element` (even if one of the
+                // calls below panics)
+                let element = ::std::mem::ManuallyDrop::new(element);
                 #(
                     let field = unsafe { ::std::ptr::read(&element.#fields_names) };
                     let #fields_names_hygienic = #vec_replace;
                 )*
-                // if value implements Drop, we don't want to run it here, only
-                // when the vec itself will be dropped.
-                ::std::mem::forget(element);
 
                 #name{#(#fields_names: #fields_names_hygienic),*}
             }
